@@ -55,6 +55,24 @@ CHECKS["C03"] = dict(
     design_ref="5 C03", technique="Coq proof (query-extension laws of the form codec, fold invariant over builder calls) + extracted monitor/model vs real authorize URLs",
     note="The url crate's split of endpoint and result (prefix/query/fragment) is an oracle reported by the harness.")
 
+CHECKS["C04"] = dict(
+    text="Theorems for all byte strings / byte counts / random streams: both constructors refuse exactly the lengths outside 43..=128 (byte length), S256 challenge = b64url-nopad(SHA-256(verifier)) of 43 characters, "
+         "random verifiers are refused iff n outside 32..=96, consist of unreserved characters, have length ceil(4n/3) within 43..=128 and match the challenge returned with them; "
+         "challenge in the URL and verifier in the exchange body pass the RFC 7636 4.6 server check. Correspondence: exhaustive length sweeps, digests compared with the Gallina SHA-256, full authorize->exchange path.",
+    design_ref="5 C04", technique="Coq proof (guards, base64 length/alphabet lemmas, composition with C01/C03) + extracted model/monitor vs real constructors",
+    note="SHA-256 is a Gallina transcription validated by FIPS/RFC vectors and by every case; thread_rng is an oracle (all streams quantified).")
+CHECKS["C12"] = dict(
+    text="PARTIAL. Proved for every byte count and every random stream: the token is the unpadded URL-safe base64 of exactly the first n generator bytes (alphabet, length ceil(4n/3), every byte recoverable, injective), "
+         "defaults 16 and 32 bytes. Not provable here and only supported by statistics on large samples (sequential, threads, processes): pairwise distinctness, unbiased bits, no serial correlation — properties of rand::thread_rng.",
+    design_ref="5 C12, 7", technique="Coq proof of the deterministic shape (base64 round trip) + extracted monitor on generated tokens + statistical supporting evidence",
+    note="rand::thread_rng is an oracle; the statistics are evidence, not proof.")
+CHECKS["C20"] = dict(
+    text="PARTIAL. Proved: the comparison is reflexive, symmetric, transitive, complete (equal contents compare equal), consistent with hashing for any hasher, and depends only on the whole-input digests; "
+         "'equal only if contents equal' is proved under the explicit premise that SHA-256 does not collide on the pair (collisions exist by counting). Timing is not expressible. "
+         "Correspondence: ==, symmetry, Hash for the 10 secret types against the Gallina SHA-256 model and against content equality.",
+    design_ref="5 C20, 7", technique="Coq proof (equivalence-relation laws via digest equality) + extracted-model differential correspondence with feature timing-resistant-secret-traits",
+    note="SHA-256 collision-freeness on the compared pair is a visible premise of C20_sound_partial.")
+
 NOT_YET = {}
 
 
